@@ -88,7 +88,7 @@ def run(ctx):
                 ctx.ob("C05.handle.push-before-none", f.key, "None after push", f.dominates(blk, nblk), "the push call must dominate the None result")
     f = ctx.fn(A + "handle_in")
     if f:
-        rets = [e for _, e in ctx.ret_exprs(f)]
+        rets = ctx.ret_values(f)
         ctx.ob("C05.handle_in.delegates", f.key, "return",
                len(rets) == 1 and bool(re.match(r"^darling_core::error::Accumulator::handle\(self, .*call_once\(a2, tuple\{\}\)\)$", rets[0])), "returns %s" % rets)
     f = ctx.fn(A + "push")
@@ -103,21 +103,21 @@ def run(ctx):
         ctx.ob("C05.extend.appends-live-vector", ext.key, "Vec::extend(errors(), iter)", ok, "calls: %s" % [(ctx.expr(ext, t["args"][0]), ctx.expr(ext, t["args"][1])) for _, t in c])
     f = ctx.fn(A + "errors")
     if f:
-        rets = [e for _, e in ctx.ret_exprs(f)]
+        rets = ctx.ret_values(f)
         ctx.ob("C05.errors.live-vector", f.key, "return", rets == ["(self.0 as Some).0"], "returns %s" % rets)
     # ---------------------------------------------------------------- into_inner / checkpoint / default
     f = ctx.fn(A + "into_inner")
     if f:
-        rets = [e for _, e in ctx.ret_exprs(f)]
+        rets = ctx.ret_values(f)
         ctx.ob("C05.into_inner.take", f.key, "return", rets == ["(core::option::Option::<T>::take(self.0) as Some).0"], "returns %s" % rets)
     dflt = ctx.fn("<%s as core::default::Default>::default" % ACC)
     if dflt:
-        rets = [e for _, e in ctx.ret_exprs(dflt)]
+        rets = ctx.ret_values(dflt)
         ctx.ob("C05.default.armed-empty", dflt.key, "return",
                rets == ["darling_core::error::Accumulator::Accumulator{core::option::Option::Some{alloc::vec::Vec::<T>::new()}}"], "returns %s" % rets)
     f = ctx.fn("darling_core::error::Error::accumulator")
     if f:
-        rets = [e for _, e in ctx.ret_exprs(f)]
+        rets = ctx.ret_values(f)
         ctx.ob("C05.accumulator.default", f.key, "return", rets == ["<darling_core::error::Accumulator as core::default::Default>::default()"], "returns %s" % rets)
     f = ctx.fn(A + "checkpoint")
     if f:
@@ -127,10 +127,13 @@ def run(ctx):
             ctx.requires("C05.checkpoint.ok-iff-clean", f, blk, "Ok(fresh)", [r"is_ok\(darling_core::error::Accumulator::finish\(self\)\)=True"])
             e = ctx.expr(f, st["r"])
             ctx.ob("C05.checkpoint.fresh", f.key, "Ok(fresh)", e == "core::result::Result::Ok{<darling_core::error::Accumulator as core::default::Default>::default()}", "Ok carries %s" % e)
-        res = ctx.find_calls(f, r"FromResidual<.*>>::from_residual$")
-        ctx.ob("C05.checkpoint.err-path", f.key, "from_residual", len(res) == 1, "%d residual returns" % len(res))
-        for blk, t in res:
+        # the failing exit, written with `?` or with an explicit match: every returned value that is
+        # not the Ok(fresh) above is produced from finish(self)'s error, under finish(self) = Err
+        res = [(blk, e) for blk, e in ctx.ret_exprs(f) if not e.startswith("core::result::Result::Ok{")]
+        ctx.ob("C05.checkpoint.err-path", f.key, "failing exit", len(res) == 1, "%d failing exits: %s" % (len(res), [e[:120] for _, e in res]))
+        for blk, e in res:
             ctx.requires("C05.checkpoint.err-iff-recorded", f, blk, "Err(recorded)", [r"is_ok\(darling_core::error::Accumulator::finish\(self\)\)=False"])
+            ctx.ob("C05.checkpoint.err-value", f.key, "Err(recorded)", "darling_core::error::Accumulator::finish(self)" in e, "returns %s" % e[:200])
     # ---------------------------------------------------------------- the drop bomb
     f = ctx.fn("<%s as core::ops::drop::Drop>::drop" % ACC)
     if f:
